@@ -212,3 +212,35 @@ Definition ubi_apply (ubi_sum amount period hardcap : Z) : outcome Z :=
    the cache context around it only discards ERRORS *)
 Definition ubi_mint (amount : Z) : outcome Z :=
   let a := as_int64 amount * 1000000 in if a <? 0 then Panic "neg-coin" else Ok a.
+
+(* ------------------------------------------------------------------ the same steps as the tree has them NOW: each flag is
+   regenerated from /repo by gen_panics (true = the unguarded code of the pinned tree) *)
+(* IsQuorum error: panic, or "quorum not reached" *)
+Definition process_quorum_on (panics : bool) (q : dec) (votes voters : Z) : outcome bool :=
+  if panics then process_quorum q votes voters
+  else match is_quorum q votes voters with Err _ => Ok false | r => r end.
+(* Coins.Sub (panics below zero) or SafeSub + error *)
+Fixpoint withdraw_loop_checked (n : nat) (modbal poolbal amt : Z) : outcome (Z * Z) :=
+  match n with
+  | O => Ok (modbal, poolbal)
+  | S k => if amt =? 0 then withdraw_loop_checked k modbal poolbal amt
+           else if modbal <? amt then Err "insufficient-funds"
+           else if poolbal <? amt then Err "pool balance does not cover the amount"
+           else withdraw_loop_checked k (modbal - amt) (poolbal - amt) amt
+  end.
+Definition withdraw_handler_on (unchecked : bool) (n : nat) (amt : Z) (s : Z * Z) : outcome (Z * Z) :=
+  if unchecked then withdraw_handler n amt s else withdraw_loop_checked n (fst s) (snd s) amt.
+Definition claim_checked (poolbal : Z) (rate w : dec) (cstart last now cend expiry : Z) : outcome Z :=
+  if w =? 0 then Err "not-beneficiary" else
+  let cs := Z.max cstart last in
+  let ce := if negb (cend =? 0) && (cend <? now) then cend else now in
+  if ce <=? cs then Err "no-more-rewards" else
+  let dur := Z.min (ce - cs) expiry in
+  do a1 <- relabel (dmul rate (dec_of_int dur)); do a2 <- relabel (dmul a1 w);
+  let amount := round_int a2 in
+  if amount <? 0 then Err "pool balance does not cover the amount"
+  else if poolbal <? amount then Err "pool balance does not cover the amount"
+  else Ok (poolbal - amount).
+Definition claim_on (unchecked : bool) := if unchecked then claim else claim_checked.
+(* int64(amount) or NewIntFromUint64(amount) *)
+Definition ubi_mint_on (cast : bool) (amount : Z) : outcome Z := if cast then ubi_mint amount else Ok (amount * 1000000).
